@@ -500,12 +500,16 @@ theorem fetchRead_adv (fixed : Bool) (v : Nat) (offset : Int) (b : Body) (s : RS
               | kafka k =>
                 simp only
                 cases hq : discardN (↑s3.sz) s3 with
-                | mk r4 s4 => rw [hq] at hd; cases r4 <;> exact Adv.trans h3 hd
+                | mk r4 s4 =>
+                  rw [hq] at hd
+                  cases r4 with
+                  | ok u4 => exact Adv.trans h3 hd
+                  | error e4 => cases fixed <;> exact Adv.trans h3 hd
               | _ => exact h3
 
 /-- on a stream too short for the frame, a drain cannot succeed -/
 theorem drainKafka_cut (k : Int) (s1 : RS) (key : (drainKafka true k s1).2.sz = 0 → False) :
-    (drainKafka true k s1).1 ≠ .ok ∧ ((drainKafka true k s1).1.isFail = false → (drainKafka true k s1).2.inp = []) := by
+    (drainKafka true k s1).1.isFail = true := by
   unfold drainKafka at key ⊢
   simp only [Bool.true_and] at key ⊢
   split
@@ -523,11 +527,11 @@ theorem drainKafka_cut (k : Int) (s1 : RS) (key : (drainKafka true k s1).2.sz = 
     simp only [h1, Bool.false_eq_true, ↓reduceIte] at key
     exact absurd this key
 
-/-- fetch on a stream that ends before the frame does: never a complete batch; if a kafka error comes out of it
-the stream has been used up (every later operation fails). -/
+/-- fetch on a stream that ends before the frame does — for every conserving message-set reader, however far the batch
+was read before Close: a non-kafka error.  (Since the fix C02-D33 also when a kafka error came out of ReadMessage
+and the rest of the response could not be skipped.) -/
 theorem fetchRead_cut (v : Nat) (offset : Int) (b : Body) (s : RS) (hb : b.Conserves) (hcut : s.inp.length < s.sz) :
-    (fetchRead true v offset b s).1 ≠ .ok ∧
-    ((fetchRead true v offset b s).1.isFail = false → (fetchRead true v offset b s).2.inp = []) := by
+    (fetchRead true v offset b s).1.isFail = true := by
   have hadv := fetchRead_adv true v offset b s hb
   have key : (fetchRead true v offset b s).2.sz = 0 → False := by
     intro hz
@@ -581,7 +585,7 @@ theorem fetchRead_cut (v : Nat) (offset : Int) (b : Body) (s : RS) (hb : b.Conse
                   rw [hq] at key
                   cases r4 with
                   | ok u4 => exact absurd (discardN_all_ok hq) (by simpa using key)
-                  | error e4 => simp [Outcome.isFail, (discardN_all_fail hq).1]
+                  | error e4 => simp [Outcome.isFail]
               | eof => simp [Outcome.isFail]
               | unexpectedEOF => simp [Outcome.isFail]
               | other w => simp [Outcome.isFail]
